@@ -2,6 +2,7 @@ package main
 
 import (
 	"math/rand"
+	"os"
 	"strings"
 	"time"
 
@@ -67,22 +68,36 @@ func genericRun(sp stagePlan) func(rep *Report, def *propDef) {
 		if rep.Tier == "thorough" {
 			budget = 60 * time.Minute
 		}
+		// development aid (tools/try_seed.sh): stop at the first stage that has a finding
+		failFast := func() bool { return os.Getenv("VERIF_FAILFAST") != "" && len(rep.Findings) > 0 }
 		for i, cp := range sp.covers {
 			cats := cp.cats(rep.Seed*7919+int64(i), rep.Tier)
 			st, err := coverStage(cp.name, cats, cp.bounds, budget, 4, rep.Tier == "thorough" && i == 0)
 			rep.takeCover(def, st, cats, err)
+			if failFast() {
+				return
+			}
 		}
 		if sp.traces != nil {
 			for i, tp := range sp.traces(rep.Tier) {
+				if failFast() {
+					return
+				}
 				cfg := TraceSpecCfg{Name: tp.name, Seed: rep.Seed*104729 + int64(i), Containers: tp.n, Features: tp.features,
 					Driver: run.DriverOpts{MaxOps: tp.ops, PFault: tp.pfault, PInvoke: 0.3}, Opts: tp.opts, Variants: tp.variants}
 				st, err := traceStage(cfg, budget, 4)
 				rep.takeTrace(def, st, cfg, err)
 			}
 		}
+		if failFast() {
+			return
+		}
 		if sp.sig {
 			st, err := sigStage(budget, 6)
 			rep.takeSig(def, st, err)
+		}
+		if failFast() {
+			return
 		}
 		if sp.repo {
 			st, rs, err := repoTraceStage(budget, 4)
